@@ -163,7 +163,12 @@ def explore(mod, res, rng, tier, known_ids, can_drive, cases):
 			if span is not None:
 				mo = outs[span[0]:span[0] + span[1]]
 				io = mod.impl_lines(case)
-				res.traces += 1
+				if 'skip' in mo:
+					# the model declares the input outside its domain (a stdlib routine it does not model)
+					res.skipped += 1
+					mo = io
+				else:
+					res.traces += 1
 				agree = (mo == io)
 				if not agree:
 					for i, (a, b) in enumerate(zip(mo, io)):
